@@ -241,3 +241,35 @@ add("C31", "exploration", ["srvh"], c31_steps,
     "that of a sequential reference instance.",
     "Single node storage path (the place where committed entries are executed); the HTTP layer and inter-node transport are not part of this check.",
     "DESIGN.md §6 C31, §5.9", replay_bin=SRVH, engine="srvh")
+
+
+def http_steps(engine, quick, thorough):
+    def steps(tier):
+        return [{"cmd": [SRVH, engine, "--workers", "8"] + (thorough if tier == "thorough" else quick)}]
+    return steps
+
+
+add("C24", "exploration", ["agdb_server", "srvh"], http_steps("c24", ["--n", "6", "--requests", "400"], ["--n", "48", "--requests", "1500"]),
+    "permission reference model + state probe over a real agdb_server process (HTTP, generated multi-user request sequences)",
+    "The real server binary built from the working tree is started per case in a scratch directory; generated sequences of requests by users with "
+    "every relation to the target (owner, admin / write / read role, stranger, server admin, no token, garbage token, logged-out token, token of a "
+    "deleted user) cover the database and role endpoints; a model of the documented permission table decides 'permitted'; requests that are not "
+    "permitted must be rejected and leave the admin-API state probe unchanged; role changes and logouts that returned 2xx must be effective at once.",
+    "Sequential requests on one node; token expiry by time is exercised only through logout / user deletion (the minimum expiry is 60 s).",
+    "DESIGN.md §6 C24", replay_bin=SRVH, engine="srvh")
+
+add("C25", "exploration", ["agdb_server", "srvh"], http_steps("c25", ["--n", "6", "--batches", "150"], ["--n", "32", "--batches", "600"]),
+    "differential twin (in-process DbMemory with an independent result-injection implementation) + audit log checker over a real agdb_server process",
+    "Generated batches with reads, writes, failing queries at every position and ':i' result references are submitted through exec and exec_mut by two "
+    "users; an in-process twin database decides success and the expected results; after every batch the server's state fingerprint must equal the "
+    "twin's (all-or-nothing), and the audit endpoint must list exactly the mutating queries of the applied batches, in order, with the submitting user.",
+    "Memory, mapped and file database kinds; one node.",
+    "DESIGN.md §6 C25", replay_bin=SRVH, engine="srvh")
+
+add("C26", "exploration", ["agdb_server", "srvh"], http_steps("c26", ["--n", "4", "--requests", "220"], ["--n", "24", "--requests", "500"]),
+    "strace file-system call monitor + canary files + name-to-file collision checker over a real agdb_server process driven through raw sockets",
+    "The real server runs under strace -f; hostile database names (separators, dot segments, absolute paths, reserved directory and file names, "
+    "percent-encoded forms) are sent through a raw-socket HTTP client to add / backup / copy / rename / restore / clear / delete; every mutating "
+    "file-system call must stay inside the owner's directory, accepted names must map to pairwise distinct files, canaries must stay unchanged.",
+    "Linux path semantics only.",
+    "DESIGN.md §6 C26", replay_bin=SRVH, engine="srvh")
